@@ -54,6 +54,29 @@ theorem closest_counterexample :
     Gen.ClosestPowerOfTwo (BitVec.ofNat 64 (2 ^ 62 + 1)) = none :=
   Proofs.Arith.closest_counterexample
 
+/-- rounding up is idempotent: the result of `CeilToPowerOfTwo` is a fixed point of it
+    (a buffer grown to a rounded capacity is never re-rounded to something larger) -/
+theorem ceil_idempotent (n : BitVec 64) (h : n.toInt ≤ 2 ^ 62) :
+    ∃ r, Gen.CeilToPowerOfTwo n = some r ∧ Gen.CeilToPowerOfTwo r = some r := by
+  obtain ⟨r, hr, hp, hge, hmin⟩ := Proofs.Arith.ceil_spec n h
+  have hr62 : r.toInt ≤ 2 ^ 62 := hmin (2 ^ 62) ⟨62, rfl⟩ (by omega)
+  obtain ⟨r', hr', hp', hge', hmin'⟩ := Proofs.Arith.ceil_spec r hr62
+  have h1 : r'.toInt ≤ r.toInt := hmin' r.toInt hp (by omega)
+  have h2 : r.toInt ≤ r'.toInt := by omega
+  have : r' = r := BitVec.eq_of_toInt_eq (by omega)
+  exact ⟨r, hr, this ▸ hr'⟩
+
+/-- for `3 ≤ n ≤ 2^62` the two roundings bracket `n`, and are within a factor two of it:
+    `floor n ≤ n ≤ ceil n`, `n < 2 * floor n`, and `ceil n ≤ 2 * floor n` -/
+theorem floor_le_ceil (n : BitVec 64) (h1 : 2 < n.toInt) (h2 : n.toInt ≤ 2 ^ 62) :
+    ∃ f c, Gen.FloorToPowerOfTwo n = some f ∧ Gen.CeilToPowerOfTwo n = some c ∧
+      f.toInt ≤ n.toInt ∧ n.toInt ≤ c.toInt ∧ n.toInt < 2 * f.toInt ∧ c.toInt ≤ 2 * f.toInt := by
+  obtain ⟨f, hf, _, hf2⟩ := Proofs.Arith.floor_spec n
+  obtain ⟨c, hc, _, hge, hmin⟩ := Proofs.Arith.ceil_spec n h2
+  obtain ⟨⟨k, hk⟩, hfl, hfu⟩ := hf2 h1
+  refine ⟨f, c, hf, hc, hfl, by omega, hfu, ?_⟩
+  exact hmin (2 * f.toInt) ⟨k + 1, by rw [hk, Int.pow_succ]; omega⟩ (by omega)
+
 /-- byte-slice pool size class: the smallest class whose capacity `2^i` is at least the size -/
 theorem bs_index_spec (s : BitVec 32) (h1 : 1 ≤ s.toNat) (h2 : s.toNat ≤ 2 ^ 31) :
     ∃ i, Gen.bsIndex s = some i ∧ s.toNat ≤ 2 ^ i.toNat ∧ ∀ j : Nat, s.toNat ≤ 2 ^ j → i.toNat ≤ j :=
@@ -79,5 +102,7 @@ example : Gen.CeilToPowerOfTwo 1000#64 = some 1024#64 := by decide
 example : Gen.FloorToPowerOfTwo (BitVec.ofNat 64 (2 ^ 40 + 5)) = some (BitVec.ofNat 64 (2 ^ 40)) := by decide
 example : Gen.ClosestPowerOfTwo 6#64 = some 8#64 := by decide
 example : Gen.bsIndex 4097#32 = some 13#32 := by decide
+example : Gen.CeilToPowerOfTwo 1024#64 = some 1024#64 := by decide
+example : (2 : Int) < (1000#64).toInt ∧ (1000#64).toInt ≤ 2 ^ 62 := by decide
 
 end Gnet.Props.C20
